@@ -80,6 +80,9 @@ func hC10race(layout int) {
 	vGo(func() { f2 = vPublicOp(db, k2, r.keys[1], v2, "b") })
 	vJoin()
 	vFlag("lockset", 0)
+	// no lock is left behind: the handle still answers (or fails), it does not hang
+	_ = db.Count()
+	_, _ = db.Has(r.keys[0])
 	closed := k1 == 12 || k2 == 12
 	if !closed {
 		vAssert(!f1 || k1 == 8, "C10.op1-succeeds") // Compact may report errBusy
